@@ -35,6 +35,9 @@ func Date(rank int) time.Time {
 	if rank <= -1000 {
 		return time.Time{}
 	}
+	if rank >= 1000 { // "never": beyond the range of int64 nanoseconds since 1970
+		return time.Date(9999, 12, 31, 23, 59, 59, 0, time.UTC)
+	}
 	return Base.Add(time.Duration(rank) * time.Hour)
 }
 
